@@ -218,12 +218,18 @@ def previous_life(obj, case):
         obj.signed_weights(lam)
     else:
         obj.signed_weights(lam)
-    for call in ((lambda: obj.project_lambda(lam)) if len(idx) else None, obj.bound):
-        if call is not None:
-            try:
-                call()
-            except NotImplementedError:     # the abstract default of `Moment` (ErrorRate has no bound())
-                pass
+    if len(idx):
+        try:
+            obj.project_lambda(lam)
+        except NotImplementedError:         # the abstract default of `Moment`
+            pass
+    try:
+        obj.bound()
+    except NotImplementedError:             # ErrorRate has no bound()
+        pass
+    except ValueError:                      # BoundedGroupLoss(upper_bound=None).bound(): "No Upper Bound" (documented)
+        if getattr(obj, "upper_bound", 0) is not None:
+            raise
     return obj
 
 
